@@ -292,9 +292,11 @@ def to_python(desc, tmpdir=None):
 
         return SV()
 
-    class Work(dawgie.Algorithm, dawgie.Analyzer, dawgie.Regression):
+    class _Work:
+        # one concrete class per factory kind, each offering ONLY the
+        # dependency accessor of its kind (previous / traits / variables)
         def __init__(self, d):
-            dawgie.Algorithm.__init__(self)
+            super().__init__()
             self._version_ = dawgie.VERSION(*d.get('ver', (1, 0, 0)))
             self._d = d
             self._svs = [mk_sv(s) for s in d['svs']]
@@ -307,12 +309,6 @@ def to_python(desc, tmpdir=None):
         def feedback(self):
             return self._fb
 
-        def previous(self):
-            return self._deps
-
-        traits = previous
-        variables = previous
-
         def run(self, *a, **k):
             return
 
@@ -322,6 +318,20 @@ def to_python(desc, tmpdir=None):
         def where(self):
             return dawgie.Distribution[
                 _WHERE.get(self._d.get('where', 'cluster'), 'cluster')]
+
+    class AlgWork(_Work, dawgie.Algorithm):
+        def previous(self):
+            return self._deps
+
+    class AnaWork(_Work, dawgie.Analyzer):
+        def traits(self):
+            return self._deps
+
+    class RegWork(_Work, dawgie.Regression):
+        def variables(self):
+            return self._deps
+
+    Work = {'task': AlgWork, 'analysis': AnaWork, 'regress': RegWork}
 
     for k in [k for k in sys.modules if k == base or k.startswith(base + '.')]:
         del sys.modules[k]
@@ -338,7 +348,7 @@ def to_python(desc, tmpdir=None):
         for kind in KINDS:
             if not p.get(kind):
                 continue
-            lst = [Work(a) for a in p[kind]]
+            lst = [Work[kind](a) for a in p[kind]]
             for w in lst:
                 works[(pkg, kind, w.name())] = w
             if kind == 'task':
